@@ -654,3 +654,48 @@ def rule_O_ORDER(ctx):
     if not [s for s in sites if ORDER_EXCEPTIONS.get((s[0], s[2])) is None or s[5]]:
         ctx.ob("O-ORDER", "no other order-changing call on a component sequence", True)
     ctx.sample({"rule": "O-ORDER", "functions_scanned": n_fn, "reviewed_sites": {"%s.%s" % k: v[1] for k, v in ORDER_EXCEPTIONS.items()}})
+
+
+def rule_M_BINFILL(ctx):
+    """parse_compound fills the two operands of the binary compounds from the END of the parsed list: last parsed -> second field"""
+    ctx.rule("M-BINFILL", "enum parse_compound, binary arm (differences): the pattern binds (first, second) in field order and the body assigns "
+             "`*second = terms.pop()` before `*first = terms.pop()` -- the last parsed component becomes the second operand")
+    pc = enum_parser_fn(ctx, "parse_compound")
+    found = False
+    for n in hir.walk(pc["body"]):
+        if n.get("k") != "Match":
+            continue
+        for a in n["arms"]:
+            pats = hir.flatten_or(a["pat"])
+            vs = set()
+            for q in pats:
+                while q["k"] in ("Ref", "Box", "Deref"):
+                    q = q["pat"]
+                if q["k"] == "TupleStruct":
+                    vs.add(hir.variant_of(q["path"]))
+            if "DifferenceExtension" not in vs:
+                continue
+            found = True
+            ok_binds = True
+            names = None
+            for q in pats:
+                while q["k"] in ("Ref", "Box", "Deref"):
+                    q = q["pat"]
+                b = hir.pat_bindings(q)
+                if names is None:
+                    names = b
+                ok_binds = ok_binds and b == names and len(b) == 2
+            order = []
+            for x in hir.walk(a["body"]):
+                if x.get("k") == "Assign":
+                    l = strip(x["l"])
+                    while l["k"] == "Unary":
+                        l = strip(l["e"])
+                    if l["k"] == "MethodCall" and l["method"] in ("as_mut", "deref_mut") and field_path(l["recv"]):
+                        pops = hir.find_calls(x["r"], "pop")
+                        if pops:
+                            order.append(field_path(l["recv"])[0])
+            ctx.ob("M-BINFILL", "parse_compound binary arm %s" % sorted(vs)[:2], ok_binds and names is not None and order == [names[1], names[0]],
+                   "bindings %s (same in every alternative: %s); pop targets in order %s" % (names, ok_binds, order))
+    if not found:
+        raise AnchorMissing("parse_compound arm for the differences")
